@@ -23,7 +23,7 @@ class SafeEnvironment(Environment):
     @property
     def params(self) -> Mapping[str, Any]:
         try:
-            params = self.env.params
+            params = dict(self.env.params) #a copy: what we add below must not end up in the environment's own mapping
         except AttributeError:
             params = {}
 
@@ -246,7 +246,7 @@ class SafeLearner(Learner):
         try:
             params = self.learner.params
             params = params if not callable(params) else params()
-            params = params if isinstance(params,dict) else {'params':str(params)}
+            params = dict(params) if isinstance(params,dict) else {'params':str(params)} #a copy (see SafeEnvironment)
         except AttributeError:
             params = {}
 
@@ -418,7 +418,7 @@ class SafeEvaluator(Evaluator):
     @property
     def params(self):
         try:
-            params = self.evaluator.params
+            params = dict(self.evaluator.params) #a copy (see SafeEnvironment)
         except:
             params = {}
 
